@@ -1421,6 +1421,14 @@ class _BoundNative:
             return dict(o)
         if isinstance(o, list) and n == "copy":
             return list(o)
+        if isinstance(o, set) and n in ("update", "add", "discard") and not any(is_sym(a) for a in args):
+            # a native set of concrete (hashable) elements
+            if n == "update":
+                for a in args:
+                    o.update(interp.as_sequence(a, node))
+            else:
+                getattr(o, n)(*args)
+            return None
         if isinstance(o, str) and n == "format":
             if any(is_sym(a) or isinstance(a, (SRec, PStr)) for a in args):
                 if getattr(interp.ctx.engine, "precise_format", False) and not kwargs:
